@@ -1469,16 +1469,30 @@ package crypto
 
 // ---- Joint-Feldman End (C10): typestate part. The key summation helper is an ASSUMED contract (its memory safety
 // needs a counting argument: the number of non-disqualified instances equals `qualified`); everything else is proved.
-// getQualifiedKeys (the filter over the non-disqualified instances) is the ASSUMED part: that it returns `qualified` keys of
-// each kind needs the counting argument; sumUpQualifiedKeys itself is verified against it: the three sums are the C sums of what
-// the filter returned, and the public share of EVERY participant is summed (loop exit clause).
-//@ func (*JointFeldmanState).getQualifiedKeys trusted
-//@ requires s != nil
+// Joint-Feldman key summation. End counts the disqualified instances; cntQ(s, n) is the number of non-disqualified instances
+// among the first n (a fold over the flags). getQualifiedKeys (the filter) returns exactly cntQ(s, size) keys of each kind and
+// never indexes an instance's vector or share list out of range; sumUpQualifiedKeys hands the C sums buffers of exactly that
+// length and sums the public share of EVERY participant (loop exit clause). Nothing in this chain is assumed.
+//@ pred jfKeyShape(s) = s != nil && s.dkgCommon != nil && 2 <= s.size && s.size <= 254 && len(s.fvss) == s.size && forall(k, 0, s.size, s.fvss[k].feldmanVSSstate != nil && (!s.fvss[k].disqualified ==> len(s.fvss[k].vA) >= 1 && len(s.fvss[k].y) == s.size))
+//@ pred cntQ(s, n) = old(isumof(d, 0, n, ite(s.fvss[d].disqualified, 0, 1)))
+// (loop 1 is the main loop: loops are numbered by the position of their first instruction, and the main loop's phi nodes carry the
+// position of the declarations above the initialisation loop; loop 2 is the initialisation loop, loop 3 the inner loop)
+//@ func (*JointFeldmanState).getQualifiedKeys mode int props C07 C09
+//@ requires jfKeyShape(s) && 0 <= qualified && qualified <= 254
+//@ requires [qualified-is-the-number-of-non-disqualified-dealers] qualified == cntQ(s, s.size)
 //@ assigns nothing
-//@ ensures len(result0) == qualified && len(result1) == qualified && len(result2) == s.size && fresh(result0) && fresh(result1) && fresh(result2) && forall(k, 0, s.size, len(result2[k]) == qualified && fresh(result2[k]))
+//@ ensures [shape] len(result2) == s.size && fresh(result0) && fresh(result1) && fresh(result2)
+//@ ensures [as-many-keys-as-qualified-dealers] len(result0) == qualified && len(result1) == qualified && forall(k, 0, s.size, len(result2[k]) == qualified && fresh(result2[k]))
+//@ loop 2 invariant 0 <= i && i <= s.size && len(qualifiedy) == s.size && fresh(qualifiedy) && fresh(qualifiedx) && fresh(qualifiedPubKey) && unchanged(s.size) && unchanged(s.dkgCommon)
+//@ loop 2 invariant [empty-lists-so-far] len(qualifiedx) == 0 && len(qualifiedPubKey) == 0 && forall(k, 0, i, len(qualifiedy[k]) == 0 && fresh(qualifiedy[k]))
+//@ loop 1 invariant 0 <= i && i <= s.size && len(qualifiedy) == s.size && fresh(qualifiedy) && fresh(qualifiedx) && fresh(qualifiedPubKey) && unchanged(s.size) && unchanged(s.dkgCommon)
+//@ loop 1 invariant [one-entry-per-qualified-dealer-so-far long] len(qualifiedx) == cntQ(s, i) && len(qualifiedPubKey) == cntQ(s, i) && forall(k, 0, s.size, len(qualifiedy[k]) == cntQ(s, i) && fresh(qualifiedy[k]))
+//@ loop 3 invariant 0 <= i && i < s.size && 0 <= j && j <= s.size && len(qualifiedy) == s.size && fresh(qualifiedy) && fresh(qualifiedx) && fresh(qualifiedPubKey) && unchanged(s.size) && unchanged(s.dkgCommon) && !s.fvss[i].disqualified
+//@ loop 3 invariant [inner] len(qualifiedx) == cntQ(s, i) + 1 && len(qualifiedPubKey) == cntQ(s, i) + 1 && forall(k, 0, j, len(qualifiedy[k]) == cntQ(s, i) + 1 && fresh(qualifiedy[k])) && forall(k, j, s.size, len(qualifiedy[k]) == cntQ(s, i) && fresh(qualifiedy[k]))
 
 //@ func (*JointFeldmanState).sumUpQualifiedKeys mode int props C07 C09
-//@ requires s != nil && s.dkgCommon != nil && 2 <= s.size && s.size <= 254 && 1 <= qualified && qualified <= 254
+//@ requires jfKeyShape(s) && 1 <= qualified && qualified <= 254
+//@ requires [qualified-is-the-number-of-non-disqualified-dealers] qualified == cntQ(s, s.size)
 //@ assigns nothing
 //@ ensures result0 != nil && fresh(result0) && result1 != nil && fresh(result1) && len(result2) == s.size && fresh(result2)
 //@ loop 1 invariant [range] 0 <= i && i <= s.size && len(jointy) == s.size && fresh(jointy) && len(qualifiedy) == s.size && unchanged(s.dkgCommon) && unchanged(s.size)
@@ -1501,14 +1515,16 @@ package crypto
 //@ loop 1 invariant [range] 0 <= i && i <= s.size && 0 <= disqualifiedTotal && disqualifiedTotal <= i && s.jointRunning && old(s.jointRunning)
 //@ loop 1 invariant [kept] jfKept(s) && jfShape(s) && forall(j, 0, s.size, complaintsOK(&s.fvss[j]))
 //@ loop 1 invariant [pristine] i == 0 ==> nothingAssigned()
+//@ loop 1 invariant [qualified-count] i - disqualifiedTotal == isumof(d, 0, i, ite(s.fvss[d].disqualified, 0, 1))
 //@ loop 1 invariant [timeouts-were-set] i > 0 ==> old(s.fvss[0].sharesTimeout) && old(s.fvss[0].complaintsTimeout)
-//@ loop 1 invariant [unanswered-complaints-disqualify] forall(j, 0, i, !s.fvss[j].disqualified ==> noUnanswered(&s.fvss[j]))
+//@ loop 1 invariant [unanswered-complaints-disqualify long] forall(j, 0, i, !s.fvss[j].disqualified ==> noUnanswered(&s.fvss[j]))
 //@ loop 1 assigns s.fvss[:], ghost(s.processor)
 //@ loop 2 invariant [range] 0 <= i && i < s.size && 0 <= disqualifiedTotal && disqualifiedTotal <= i && s.jointRunning && old(s.jointRunning) && !s.fvss[i].disqualified
 //@ loop 2 invariant [kept] jfKept(s) && jfShape(s) && forall(j, 0, s.size, complaintsOK(&s.fvss[j]))
 //@ loop 2 invariant [unanswered-complaints-disqualify] forall(j, 0, i, !s.fvss[j].disqualified ==> noUnanswered(&s.fvss[j]))
 //@ loop 2 invariant [no-unanswered-so-far] forall(k, 0, 256, visited(k) ==> !(s.fvss[i].complaints[k].received && !s.fvss[i].complaints[k].answerReceived))
 //@ loop 2 invariant [timeouts-were-set] old(s.fvss[0].sharesTimeout) && old(s.fvss[0].complaintsTimeout) && s.fvss[i].sharesTimeout && s.fvss[i].complaintsTimeout
+//@ loop 2 invariant [qualified-count] i - disqualifiedTotal == isumof(d, 0, i, ite(s.fvss[d].disqualified, 0, 1))
 //@ loop 2 assigns nothing
 //@ loop 3 invariant len(y) == s.size && len(jointy) == s.size && fresh(y) && !s.jointRunning && jfKept(s)
 
